@@ -3,3 +3,15 @@ RM = "runtime monitoring: online oracle (truth model + serial replay) over deter
 claim("C01", "exploration",
       "Thousands of randomized multi-peer executions (all topologies, windows, delays, saving modes, predictors, lossy/reordering links, outages, skew, long histories that wrap every ring) with an oracle comparing every confirmed frame and state against an executable truth model and the serial replay, online after every call. Exploration is the right level: the quantifier is over schedules/faults/histories, which a monitor can sample densely but not exhaust.",
       TB, RM, "4 C01")
+claim("C02", "exploration",
+      "Every request list of every call in thousands of randomized executions (C01's space, starved peers incl. lockstep, spectator sessions, the SyncTest grid) is executed against a shadow game that checks the contract clause by clause, including the content of loaded cells against the current timeline and the 'rollback targets are saved' invariant from retained cell clones.",
+      TB, "runtime monitoring: invariant checker at the API boundary (request-list contract + retained GameStateCell inspection)", "4 C02")
+claim("C03", "exploration",
+      "Every (input, status) pair handed out in thousands of randomized executions (both predictors, held inputs, two-peer deaths) is judged against the truth model and the connection-status hook sampled after the call; finality and monotonicity of confirmed_frame() are asserted where they advance.",
+      TB, "runtime monitoring: online oracle over AdvanceFrame inputs with truth model + read-only connection-status hook", "4 C03")
+claim("C04", "exploration",
+      "Grid of windows 0..=12 x delays 0..=6 with one peer starved for 17 ms..50 s (outages or paused remote), lockstep wait helpers, deaths: after every call the distance of a newly simulated frame to the confirmed frame and every load depth are bounded by the window; lockstep lists are checked for Save/Load/Predicted and for frame changes on stalls.",
+      TB, "runtime monitoring: invariants at the API boundary under starvation workloads", "4 C04")
+claim("C13", "exploration",
+      "The whole builder grid (players 1..=4 x window 0..=12 x check distance 0..=13 x delays x sparse) is enumerated: invalid points must be rejected, valid points run with a deterministic game (no false mismatch, request contract, inputs Confirmed and delayed) and with a game made non-deterministic at every placement of a placement set (detection lag and first named frame checked). Exhaustive over the grid, sampled over input sequences.",
+      "Trusted: the harness game and its controlled non-determinism. Input sequences are sampled (unique random values), the configuration grid and (thorough) the placements are enumerated.", "runtime monitoring: executable reference (validity predicate, delayed-input model, request contract) over an enumerated configuration grid with injected non-determinism", "4 C13")
